@@ -33,7 +33,12 @@
 //
 //	reset S <hb> <wc> <ak>                                 token auth + gateway; ak = authorizedKeysFile configured
 //	akset <mode>                                           rewrite authorized_keys: AB | A | B | A2 | empty | missing | garbage
-//	ssh <cid> <auth> <ptype> <name> <user> <token>         auth: none | A | B | C | Af (offers A, cannot sign for it)
+//	ssh <cid> <auth> <ptype> <name> <user> <token>         auth: what the client tries after the "none" request every client
+//	                                                       starts with, '+'-joined, in order: A | B | C (public keys it can
+//	                                                       sign for) | Af | Cf (offers that key, signs with another) |
+//	                                                       pw<x…> (password method with that password) | kbd<x…>
+//	                                                       (keyboard-interactive, that answer to every question) | gss
+//	                                                       (gssapi-with-mic); none = nothing further
 //	sshclose <cid>                                         the ssh client goes away
 package main
 
@@ -570,6 +575,65 @@ func peerSSH() *peerSSHKeys {
 	return peerSSHInst
 }
 
+// the ssh client's methods for an auth spec.  x/crypto/ssh tries "none" first and then the configured methods in
+// order, each method name once, skipping those the server does not list as able to continue; all keys of a spec
+// travel in ONE publickey method (in order), placed where the first key stands.
+func peerSSHMethods(spec string) ([]ssh.AuthMethod, bool) {
+	keys := peerSSH()
+	var methods []ssh.AuthMethod
+	var signers []ssh.Signer
+	keyPos := -1
+	if spec == "none" {
+		return nil, true
+	}
+	for _, t := range strings.Split(spec, "+") {
+		var signer ssh.Signer
+		switch {
+		case t == "A" || t == "B" || t == "C":
+			signer = keys.user[t]
+		case t == "Af":
+			signer = peerForgedSigner{pub: keys.user["A"], priv: keys.user["C"]}
+		case t == "Cf":
+			signer = peerForgedSigner{pub: keys.user["C"], priv: keys.user["A"]}
+		case t == "gss":
+			methods = append(methods, ssh.GSSAPIWithMICAuthMethod(peerFakeGSS{}, "frps"))
+		case strings.HasPrefix(t, "pw"):
+			methods = append(methods, ssh.Password(unhx(t[2:])))
+		case strings.HasPrefix(t, "kbd"):
+			answer := unhx(t[3:])
+			methods = append(methods, ssh.KeyboardInteractive(func(_, _ string, questions []string, _ []bool) ([]string, error) {
+				out := make([]string, len(questions))
+				for i := range out {
+					out[i] = answer
+				}
+				return out, nil
+			}))
+		default:
+			return nil, false
+		}
+		if signer != nil {
+			if keyPos < 0 {
+				keyPos = len(methods)
+				methods = append(methods, nil)
+			}
+			signers = append(signers, signer)
+		}
+	}
+	if keyPos >= 0 {
+		methods[keyPos] = ssh.PublicKeys(signers...)
+	}
+	return methods, true
+}
+
+// a GSS-API mechanism that produces a token and a MIC without any security context behind them
+type peerFakeGSS struct{}
+
+func (peerFakeGSS) InitSecContext(string, []byte, bool) ([]byte, bool, error) {
+	return []byte("not-a-kerberos-token"), false, nil
+}
+func (peerFakeGSS) GetMIC([]byte) ([]byte, error) { return []byte("mic"), nil }
+func (peerFakeGSS) DeleteSecContext() error       { return nil }
+
 // offers the public key of `pub` but signs with `priv`: a client that knows an authorized PUBLIC key only
 type peerForgedSigner struct{ pub, priv ssh.Signer }
 
@@ -700,14 +764,8 @@ func (st *peerState) doSSH(cid, authKind, ptype, name, user, token string) strin
 	}
 	keys := peerSSH()
 	before := st.runIDs()
-	var methods []ssh.AuthMethod
-	switch authKind {
-	case "none":
-	case "A", "B", "C":
-		methods = []ssh.AuthMethod{ssh.PublicKeys(keys.user[authKind])}
-	case "Af":
-		methods = []ssh.AuthMethod{ssh.PublicKeys(peerForgedSigner{pub: keys.user["A"], priv: keys.user["C"]})}
-	default:
+	methods, ok := peerSSHMethods(authKind)
+	if !ok {
 		return "badauth"
 	}
 	conf := &ssh.ClientConfig{User: "v0", Auth: methods, HostKeyCallback: ssh.FixedHostKey(keys.host.PublicKey()), Timeout: peerTimeout}
@@ -877,6 +935,7 @@ func (st *peerState) doSSH(cid, authKind, ptype, name, user, token string) strin
 	st.owner[rid] = cid
 	st.lastPing[rid] = s1.LastPing
 	st.lp[rid] = 0
+	st.legit[rid] = 0
 	ap := "0"
 	if s1.AlwaysPass {
 		ap = "1"
@@ -1281,6 +1340,7 @@ func (g *peerGen) staleSiege(t peerGenTok, victim string) {
 func (g *peerGen) oidcEpisodeM(n int, lax bool, mode string) {
 	rng := g.rng
 	g.method = "O"
+	g.token, g.noMux = "", false
 	g.oaud = pick(rng, []string{"frps", "frps", "frps", ""})
 	g.oskipExp, g.oskipI = false, false
 	if lax {
@@ -1416,26 +1476,82 @@ func (g *peerGen) oidcEpisodeM(n int, lax bool, mode string) {
 	}
 }
 
-// does the gateway of this episode let this ssh client in
+// does the gateway of this episode let this ssh client in (bookkeeping of the generator only: which tunnels to name
+// later; the model decides for itself)
 func (g *peerGen) sshPasses(auth string) bool {
 	if !g.akSet {
 		return true
 	}
-	switch g.akMode {
-	case "AB", "A2":
-		return auth == "A" || auth == "B"
-	case "A":
-		return auth == "A"
-	case "B":
-		return auth == "B"
+	listed := func(k string) bool {
+		switch g.akMode {
+		case "AB", "A2":
+			return k == "A" || k == "B"
+		case "A":
+			return k == "A"
+		case "B":
+			return k == "B"
+		}
+		return false
+	}
+	for _, t := range strings.Split(auth, "+") {
+		switch t {
+		case "A", "B", "C":
+			if listed(t) {
+				return true
+			}
+		case "Af", "Cf":
+			if listed(t[:1]) {
+				return false // bad signature: the server ends the connection
+			}
+		}
 	}
 	return false
+}
+
+// what an ssh client tries: EVERY method x/crypto/ssh implements, alone and in combination (at most five requests
+// after the initial "none": the server disconnects after six failures).  Keys stay together (one publickey method).
+func (g *peerGen) sshAuth() string {
+	rng := g.rng
+	secret := func() string {
+		return hx(pick(rng, []string{"", peerToken, "x", "wrong-token", "password", "\x00", peerRandToken(rng)}))
+	}
+	keyRun := func(max int) []string {
+		var ks []string
+		for len(ks) < 1+rng.Intn(max) {
+			ks = append(ks, pick(rng, []string{"A", "A", "B", "B", "C", "C", "Af", "Cf"}))
+		}
+		return ks
+	}
+	switch r := rng.Intn(20); {
+	case r < 6:
+		return pick(rng, []string{"A", "A", "B", "C", "Af", "Cf"})
+	case r < 8:
+		return "none"
+	case r < 11:
+		return "pw" + secret()
+	case r < 13:
+		return "kbd" + secret()
+	case r < 14:
+		return "gss"
+	}
+	// a combination: the method groups in a random order
+	groups := [][]string{{"pw" + secret()}, {"kbd" + secret()}, {"gss"}, keyRun(3)}
+	rng.Shuffle(len(groups), func(i, j int) { groups[i], groups[j] = groups[j], groups[i] })
+	var parts []string
+	for _, gr := range groups[:1+rng.Intn(len(groups))] {
+		parts = append(parts, gr...)
+	}
+	if len(parts) > 5 {
+		parts = parts[:5]
+	}
+	// keys must stay consecutive after the cut: they are (a cut only shortens the last group)
+	return strings.Join(parts, "+")
 }
 
 func (g *peerGen) ssh() {
 	rng := g.rng
 	cid := g.cid()
-	auth := pick(rng, []string{"A", "A", "A", "B", "B", "C", "C", "Af", "none", "none"})
+	auth := g.sshAuth()
 	ptype := pick(rng, []string{"tcp", "tcp", "tcp", "stcp", "stcp", "stcp", "stcp", "udp", "badflag"})
 	name := pick(rng, []string{"p1", "p2", "p3", "p4"})
 	if rng.Intn(2) == 0 {
@@ -1455,6 +1571,7 @@ func (g *peerGen) ssh() {
 func (g *peerGen) sshEpisode(n int, akSet bool) {
 	rng := g.rng
 	g.method = "t"
+	g.token, g.noMux = peerToken, false
 	g.akSet, g.akMode, g.tunnels = akSet, "AB", nil
 	hb, wc := rng.Intn(2), rng.Intn(3)/2
 	if !akSet {
